@@ -643,7 +643,7 @@ func c09CheckCardinality(w *World, r *Report) {
 func c09TableReadOnly(w *World, r *Report) {
 	prog := w.SSA()
 	pk := w.SSAPkg("parse")
-	g, ok := pk.Members["cardinalities"].(*ssa.Global)
+	g, ok := ssaMember(pk, "cardinalities").(*ssa.Global)
 	if !ok {
 		panic(undecided{"parse.cardinalities global"})
 	}
